@@ -422,7 +422,21 @@ let () =
             if not (table_okw g i tbl) then
               oracle "table_ok_proto" (Printf.sprintf "router=%s physical=[%s] table=%s" (dec_of_n i) (show g)
                 (dashed ";" (List.map (fun (d, (c, h)) -> String.concat "/" [dec_of_n d; dec_of_n c; dec_of_n h]) tbl)))) g;
-          Hashtbl.reset phys; Hashtbl.reset impl_nb; Hashtbl.reset impl_ent
+          (* after the long wait every router has processed the current advertisement of each neighbour *)
+          (let si = List.sort (fun a b -> ncmp a.self b.self) (Hashtbl.fold (fun _ r acc -> r :: acc) impl_rt []) in
+           if g = gi && settled (topo_of si) && not (fixedb si) then
+             oracle "proto_not_fixed" (String.concat " | " (List.map (fun r -> dec_of_n r.self ^ ": " ^ str_rib r) si)));
+          Hashtbl.reset phys; Hashtbl.reset impl_nb; Hashtbl.reset impl_ent; Hashtbl.reset impl_rt
+      | ["quiet"; i; s0; s1; nb0; nb1; secs] ->
+          incr nchecks;
+          (* stable links, every heartbeat delivered: nothing may be withdrawn or changed *)
+          if s0 <> s1 || nb0 <> nb1 then
+            oracle "table_changed_while_quiet" (Printf.sprintf "router=%s during %s s without any physical change: sequence number %s -> %s, neighbour table %s -> %s" i secs s0 s1 nb0 nb1)
+      | ["hb"; i; gap; sync; dead; jit] ->
+          incr nchecks;
+          (* the premise of quiet_live_neighbour_never_dead / heartbeats_survive_every_sweep, observed: heartbeat period + latency variation < dead interval *)
+          if int_of_string gap + int_of_string jit >= int_of_string dead then
+            oracle "heartbeat_too_slow" (Printf.sprintf "router=%s largest gap between its Sync Interests %s ms + latency variation %s ms >= dead interval %s ms (advertise interval %s ms)" i gap jit dead sync)
       | "overrun" :: n :: _ -> oracle "no_quiescence_proto" ("more than " ^ n ^ " Interests expressed in one case")
       | "stat" :: _ -> ()
       | ["end"] -> ()
